@@ -293,15 +293,24 @@ class GetDict(MultiDict):
     def __init__(self, data, env):
         self.env = env
         MultiDict.__init__(self, data)
+        self._written = list(self._items)
 
     def on_change(self):
         def e(t):
             return t.encode("utf8")
 
-        data = [(e(k), e(v)) for k, v in self.items()]
+        try:
+            data = [(e(k), e(v)) for k, v in self.items()]
+        except (AttributeError, UnicodeEncodeError):
+            # a key or value that is not encodable text cannot be written
+            # to QUERY_STRING, so it must not stay in the view either
+            self._items[:] = self._written
+
+            raise
         qs = url_encode(data)
         self.env["QUERY_STRING"] = qs
         self.env["webob._parsed_query_vars"] = (self, qs)
+        self._written = list(self._items)
 
     def __setitem__(self, key, value):
         MultiDict.__setitem__(self, key, value)
